@@ -1,8 +1,8 @@
 package main
 
 // Building an incoming context that already carries router keys.  The keys are unexported, so the only way to get
-// them onto a context is the real code itself: the message is sent through a one-handler "upstream" Router whose only
-// non-empty field is the wanted one, and the context its handler function sees is taken over.
+// them onto a context is the real code itself: the message is sent through a one-handler "upstream" Router whose five
+// fields are the wanted values, and the context its handler function sees is taken over.
 
 import (
 	"context"
@@ -16,34 +16,31 @@ import (
 
 func init() { staleCtx = buildStale }
 
-// spec: `.`-separated <keyIdx>_<hexValue>, innermost first
+// spec: `.`-separated <keyIdx>_<hexValue>, innermost first: the incoming context carries these values (the first
+// entry for a key wins); the upstream handler gets them as its five fields, the others stay empty
 func buildStale(spec string) context.Context {
-	ctx := context.Background()
-	es := strings.Split(spec, ".")
-	for i := len(es) - 1; i >= 0; i-- {
-		p := strings.SplitN(es[i], "_", 2)
+	f := [5]string{}
+	seen := [5]bool{}
+	for _, e := range strings.Split(spec, ".") {
+		p := strings.SplitN(e, "_", 2)
 		if len(p) != 2 {
 			continue
 		}
 		k, err := strconv.Atoi(p[0])
 		v, ok := unhex(p[1])
-		if err != nil || !ok {
+		if err != nil || !ok || k < 0 || k > 4 || seen[k] {
 			continue
 		}
-		ctx = throughUpstream(ctx, k, v)
+		f[k], seen[k] = v, true
 	}
-	return ctx
+	return throughUpstream(context.Background(), f)
 }
 
-func throughUpstream(parent context.Context, key int, val string) context.Context {
+func throughUpstream(parent context.Context, f [5]string) context.Context {
 	r := &rec{copies: map[*message.Message]*copyInfo{}, objs: map[*message.Message]*objInfo{}}
 	router, err := message.NewRouter(message.RouterConfig{CloseTimeout: 5 * time.Second}, watermill.NopLogger{})
 	if err != nil {
 		return parent
-	}
-	f := [5]string{}
-	if key >= 0 && key < 5 {
-		f[key] = val
 	}
 	core := &subCore{id: 0, r: r, closing: make(chan struct{})}
 	got := make(chan context.Context, 1)
